@@ -7,7 +7,9 @@ package client
 import (
 	"bytes"
 	"errors"
+	"fmt"
 	"io"
+	"runtime"
 	"sort"
 	"sync"
 	"testing"
@@ -26,6 +28,8 @@ type c05IO struct {
 	mu    sync.Mutex
 	limit int
 	out   []protocol.UDPMessage // frames of the Send in progress (deep copies)
+	race  bool
+	raceN, raceBad int
 }
 
 func (f *c05IO) ReceiveMessage() (*protocol.UDPMessage, error) {
@@ -41,6 +45,33 @@ func (f *c05IO) ReceiveMessage() (*protocol.UDPMessage, error) {
 }
 
 func (f *c05IO) SendMessage(buf []byte, m *protocol.UDPMessage) error {
+	if f.race {
+		// several sessions send at the same time: like a real transport, the fake looks at the buffer a little later
+		// than Serialize filled it; each session's buffer must still hold that session's message
+		n := m.Serialize(buf)
+		if n < 0 {
+			return nil
+		}
+		for i := 0; i < 3; i++ {
+			runtime.Gosched()
+		}
+		p, err := protocol.ParseUDPMessage(append([]byte(nil), buf[:n]...))
+		ok := err == nil && p.SessionID == m.SessionID && p.Addr == m.Addr && bytes.Equal(p.Data, m.Data)
+		f.mu.Lock()
+		f.raceN++
+		if !ok {
+			f.raceBad++
+			sid := -1
+			if err == nil {
+				sid = int(p.SessionID)
+			}
+			if f.raceBad <= 3 {
+				f.tr.Ev(kit.E{"ev": "SendOut", "conn": int(m.SessionID), "sid": sid, "n": 1, "sizes": []int{n}, "limit": 1 << 30, "concatOk": false, "hdrSame": false, "err": false})
+			}
+		}
+		f.mu.Unlock()
+		return nil
+	}
 	f.mu.Lock()
 	defer f.mu.Unlock()
 	if f.limit > 0 && m.Size() > f.limit {
@@ -241,6 +272,34 @@ func c05eRun(t *testing.T, tr *kit.Trace, seed int64, src string) {
 			}
 		}
 		synctest.Wait()
+		// several sessions sending concurrently (Send is per session: each has its own state, nothing may be shared)
+		if !lost && len(ss) >= 2 && r.Intn(2) == 0 {
+			fio.mu.Lock()
+			fio.race, fio.limit = true, 0
+			fio.mu.Unlock()
+			var wg sync.WaitGroup
+			for _, s := range ss {
+				if !s.open {
+					continue
+				}
+				wg.Add(1)
+				go func(s *sess) {
+					defer wg.Done()
+					for k := 0; k < 150; k++ {
+						data := bytes.Repeat([]byte{byte(s.id), byte(k)}, 20+k%50)
+						if p := kit.Catch(func() { s.c.Send(data, fmt.Sprintf("s%d:53", s.id)) }); p != "" {
+							tr.Ev(kit.E{"ev": "Panic", "what": "Send", "msg": p})
+							return
+						}
+					}
+				}(s)
+			}
+			wg.Wait()
+			fio.mu.Lock()
+			tr.Ev(kit.E{"ev": "SendRace", "sends": fio.raceN, "bad": fio.raceBad})
+			fio.race = false
+			fio.mu.Unlock()
+		}
 		if !lost {
 			lost = true
 			tr.Ev(kit.E{"ev": "Loss"})
